@@ -29,9 +29,11 @@ CLASSES = {
 
 
 def classify(v):
-    for name, c in CLASSES.items():
-        if v["site"] == c["site"] and v["kind"] in c["kinds"]:
-            return name
+    """The driver reports every observed circumstance that may explain the violation ("|"-separated)."""
+    for site in v["site"].split("|"):
+        for name, c in CLASSES.items():
+            if site == c["site"] and v["kind"] in c["kinds"]:
+                return name
     return "unclassified"
 
 
@@ -138,7 +140,36 @@ def run_scripts(binary, scripts, subjects, mutate=None, shards=8):
     inp = dict(subjects=subjects, scripts=scripts, attempts=6)
     if mutate:
         inp["mutate"] = mutate
-    return vlib.run_driver_parallel(binary, inp, shards=shards)
+    return vlib.run_driver_parallel(binary, inp, shards=shards, timeout=1500)
+
+
+def validate_bounded(traces, canary_only=False, canary=30, chunk=100, max_rej=12):
+    """vlib.validate_traces re-runs TLC twice per rejected trace; a mass drift (e.g. a changed code path) must not
+    cost hours: a random canary batch first, then chunks until max_rej rejections."""
+    acc, rej = vlib.validate_traces("TraceSubject", "Subject.trace.cfg", traces[:canary], timeout=600, batch=canary)
+    done = min(canary, len(traces))
+    if canary_only:
+        return acc, rej, done, "oracle violations already decide the run"
+    if len(rej) > canary // 10:
+        return acc, rej, done, "more than 10% of the canary batch rejected"
+    from concurrent.futures import ThreadPoolExecutor
+    starts = list(range(done, len(traces), chunk))
+
+    def one(st):
+        a, r = vlib.validate_traces("TraceSubject", "Subject.trace.cfg", traces[st:st + chunk], timeout=900, batch=chunk)
+        for x in r:
+            x["index"] += st
+        return a, r
+    # waves of 4 single-worker TLC runs; stop after a wave that brings the rejections over max_rej
+    for w in range(0, len(starts), 4):
+        with ThreadPoolExecutor(max_workers=4) as ex:
+            outs = list(ex.map(one, starts[w:w + 4]))
+        for a, r in outs:
+            acc, rej = acc + a, rej + r
+        done = min(len(traces), starts[min(w + 4, len(starts)) - 1] + chunk)
+        if len(rej) >= max_rej and done < len(traces):
+            return acc, rej, done, "%d rejections" % len(rej)
+    return acc, rej, len(traces), None
 
 
 def judge(rep, prop, results, by_id, subjects):
@@ -183,6 +214,10 @@ def run(prop, tier, seed, replay=None):
         states += m.distinct
         transitions += m.generated
         cover.update(m.coverage)
+        if m.coverage:
+            dead = [a for a in ("Tx1", "CommitMethod", "Tx2", "Stop", "Tick", "Sweep", "TailTick", "TailSweep", "TailSkip") if not m.coverage.get(a)]
+            if dead:
+                raise Inconclusive("vacuity: actions never fire in %s: %s" % (cfg, dead))
         models.append(dict(cfg=cfg, states=m.distinct, transitions=m.generated, depth=m.depth, wall_s=round(m.wall, 1), result="all invariants hold"))
     # 1b. vacuity guard: each deviation of the code, switched on alone, violates an invariant in the model
     expected = {"SweepAbortsOnUnpublishedCreate": "NoLogLeft", "AbandonKeepsDidRows": "RetryCanSucceed",
@@ -197,9 +232,9 @@ def run(prop, tier, seed, replay=None):
 
     # 2. fault enumeration: behaviours of the descriptive model (= the code as it is)
     subjects = ["s1", "s2"]
-    gens = [("Subject.genall.cfg", None), ("Subject.gen.quick.cfg", 500 if quick else None)]
+    gens = [("Subject.genall.cfg", None), ("Subject.gen.quick.cfg", 350 if quick else None)]
     if not quick:
-        gens.append(("Subject.gen.thorough.cfg", 6000))
+        gens.append(("Subject.gen.thorough.cfg", 3000))
     scripts, n_beh = hand_scripts(), 0
     for cfg, cap in gens:
         g, beh = generate(cfg, timeout=1500)
@@ -208,7 +243,7 @@ def run(prop, tier, seed, replay=None):
         transitions += g.generated
         models.append(dict(cfg=cfg, states=g.distinct, transitions=g.generated, behaviours=len(beh)))
         if cfg == "Subject.genall.cfg" and quick:
-            cap = 800
+            cap = 550
         chosen = pick(beh, cap or len(beh), rnd)
         tag = cfg.split(".")[1] + ("T" if "thorough" in cfg else "")
         scripts += [dict(id="%s-%05d" % (tag, i), steps=st) for i, st in enumerate(chosen)]
@@ -229,12 +264,14 @@ def run(prop, tier, seed, replay=None):
 
     # 4. recorded traces of the real code are validated by TLC against the specification
     traces = [r["trace"] for r in results if not r.get("error")]
-    acc, rej = vlib.validate_traces("TraceSubject", "Subject.trace.cfg", traces, timeout=1200)
+    rnd.shuffle(traces)
+    acc, rej, validated, truncated = validate_bounded(traces, canary_only=bool(rep.violations))
     if rej:
         # are the rejected executions behaviours of a variant of the specification with other deviation constants
         # (a deviation was repaired, or a new one appeared)? Informational: the verdict comes from the oracle.
-        left = [traces[x["index"]] for x in rej]
-        for bits in sorted(("%04d" % int(bin(i)[2:]) for i in range(16)), key=lambda b: -b.count("1")):
+        left = [traces[x["index"]] for x in rej][:5]
+        n_try = len(left)
+        for bits in (() if rep.violations else ("0111", "1011", "1101", "1110", "0011", "0000")):
             a2, r2 = vlib.validate_traces("TraceSubject", "Subject.trace.v%s.cfg" % bits, left, timeout=600)
             if a2:
                 rep.notes.append("DRIFT: %d recorded traces rejected by the descriptive specification are behaviours of the variant "
@@ -243,11 +280,13 @@ def run(prop, tier, seed, replay=None):
                 left = [left[x["index"]] for x in r2]
             if not left:
                 break
-        explained = len(rej) - len(left)
         for x in rej[:3]:
             rep.notes.append("DRIFT: trace %d rejected at event %d %s (%s)" % (x["index"], x["at"], json.dumps(x["event"])[:300], x["kind"]))
-        if len(left) > max(3, len(traces) // 20) and not rep.violations:
-            rep.inconclusive.append("%d of %d recorded traces are behaviours of no variant of the specification (spec/code drift)" % (len(left), len(traces)))
+        if left and len(rej) > max(3, validated // 20) and not rep.violations:
+            rep.inconclusive.append("%d of %d validated traces rejected; %d of %d examined ones are behaviours of no variant of the "
+                                    "specification (spec/code drift)" % (len(rej), validated, len(left), n_try))
+    if truncated:
+        rep.notes.append("NOTE: trace validation stopped after %d of %d traces (%s)" % (validated, len(traces), truncated))
     # every known deviation must have been exercised (otherwise the replay set lost its teeth)
     for cls in CLASSES:
         if counts.get(cls, 0) == 0 and vlib.match_known(prop, {"class": cls}):
@@ -265,11 +304,11 @@ def run(prop, tier, seed, replay=None):
     for r in results:
         if r["violations"] and len(samples) < 5:
             samples.append(dict(script=by_id[r["id"]]["steps"], violations=r["violations"][:3]))
-    cov = dict(states=states, transitions=transitions, traces_validated_against_impl=acc + len(rej), traces_accepted=acc,
+    cov = dict(states=states, transitions=transitions, traces_validated_against_impl=validated, traces_accepted=acc,
                traces_rejected=len(rej), samples=samples, models=models, behaviours_available=n_beh,
                behaviours_replayed_on_real_code=len(results), oracle_evaluations=sum(r.get("checks", 0) for r in results),
                operation_outcomes=outcomes, stop_between_commits_orders=mid, scripts_with_unrealised_order=miss,
-               violations_by_class=counts, action_coverage=cover, exhaustive=not quick,
+               violations_by_class=counts, action_coverage=cover, exhaustive=(len(scripts) - len(hand_scripts()) == n_beh),
                rule="fault enumeration: TLC exhausts Subject.tla (op sequences x a network failure or a process stop at every step boundary "
                     "x sweep before/after the minute x both method orders); the prescriptive configuration satisfies all six C13 invariants, "
                     "each named deviation alone violates one; behaviours of the descriptive model are replayed on the real SqlManager + "
